@@ -5,7 +5,8 @@
 # against it via VERIF_REPO_SRC.  (Equivalent to: git -C /repo apply; check;
 # git -C /repo checkout -- .)
 NAME=$1; shift
-PATCH=/verif/seeded/$NAME/patch.diff
+VH=${VERIF_HOME:-/verif}
+PATCH=$VH/seeded/$NAME/patch.diff
 [ -f "$NAME" ] && PATCH=$NAME
 WT=/dev/shm/mutrun.$$
 git -C /repo worktree add -q --detach $WT HEAD || exit 2
@@ -13,5 +14,5 @@ trap 'git -C /repo worktree remove --force $WT' EXIT
 git -C $WT apply $PATCH || { echo "patch does not apply"; exit 2; }
 cp /repo/VERSION $WT/src/radical/pilot/VERSION 2>/dev/null
 for P in "$@"; do
-  cd /verif && VERIF_REPO_SRC=$WT/src VERIF_REPLAYS=/dev/shm/seeded-replays VERIF_EVIDENCE=/dev/shm/seeded-evidence ./check $P --tier ${TIER:-quick} ${SEEDS:+--seeds $SEEDS} 2>&1 | grep -E "^VIOLATION|signature=|quick:|thorough:|HARNESS" | cut -c1-200 | head -12
+  cd $VH && VERIF_REPO_SRC=$WT/src VERIF_REPLAYS=/dev/shm/seeded-replays VERIF_EVIDENCE=/dev/shm/seeded-evidence ./check $P --tier ${TIER:-quick} ${SEEDS:+--seeds $SEEDS} 2>&1 | grep -E "^VIOLATION|signature=|quick:|thorough:|HARNESS" | cut -c1-200 | head -12
 done
